@@ -282,9 +282,6 @@ where
                 cp[i] = cr("into_projective", || G::op_to_proj(&src))?;
                 mp[i] = ma[j].clone();
                 cmp_proj::<G>("into_projective", step, &cp[i], &mp[i])?;
-                if !mp[i].is_inf() && !proj_z_is_one::<G>(&cp[i]) {
-                    return Err(format!("step {}: into_projective of an affine point must have Z = 1", step));
-                }
             }
             Op::RoundTrip(i) => {
                 let i = *i as usize % np;
@@ -419,10 +416,12 @@ where
             Op::IsNormalized(i) => {
                 let i = *i as usize % np;
                 let t = cp[i];
+                // only the sound direction is required: a point reported as normalized must allow the
+                // cheap affine conversion, i.e. have Z in {0, 1}
                 let n = cr("is_normalized", || G::op_is_normalized(&t))?;
-                let want = mp[i].is_inf() || proj_z_is_one::<G>(&t);
-                if n != want {
-                    return Err(format!("step {}: is_normalized() = {} but Z in {{0,1}} is {}", step, n, want));
+                let cheap = mp[i].is_inf() || proj_z_is_one::<G>(&t);
+                if n && !cheap {
+                    return Err(format!("step {}: is_normalized() is true for a representative with Z not in {{0,1}}", step));
                 }
             }
             Op::Copy(i, j) => {
